@@ -79,4 +79,31 @@ PROPS = {
                         "correspondence run (`again`), not yet proved"],
         "gen_facts": [],
     },
+    "C03": {
+        "level_text": "FULL on the model of dag.read: a read either refuses or returns the packs sorted by (edit time, pack id); "
+                      "read_wellformed / wellformed_read characterise exactly which histories are refused (several roots, missing creation "
+                      "time, merge commit with operations, undecodable or invalid pack, an edge whose edit time does not strictly increase, "
+                      "a non-merge hop above 10^6); read_causal: ancestors' operations come first, each commit's operations contiguous; "
+                      "read_enum_indep: independent of map/ref enumeration order; all for unbounded histories",
+        "level_note": "Trusted: Lean kernel, extractor, harness (its independent decoder of the on-disk format and the comparer). Hashes, pack "
+                      "ids and operation ids are opaque environment values; packs with the same (edit time, id) are assumed to hold the same "
+                      "operations (KeyOK: the id is the SHA-256 of the serialised operations). uint64 wrap-around is not modelled. The defect "
+                      "this check found (reverse BFS order is not topological) was repaired in /repo, see known_findings.json.",
+        "required_theorems": ["read_wellformed", "wellformed_read", "read_causal", "read_pack_contiguous", "read_sorted", "read_enum_indep",
+                              "read_deterministic", "refuses_two_roots", "refuses_merge_with_ops", "refuses_root_without_create",
+                              "refuses_undecodable", "refuses_bad_clock", "anc_edit_lt", "pass1_ok", "pass1_complete", "pass2_ok",
+                              "pass2_complete", "gen_read_comparisons"],
+        "slices": ["C03"],
+        "rule": "random fork/merge DAG shapes (1..9 commits quick, 1..16 thorough; all sizes 1..5 first) written directly in the on-disk "
+                "format with natural or tie-forcing clocks, one of 13 perturbations (equal/decreasing/jumping clocks, zero edit time, "
+                "missing creation time, second root, merge commit with operations, missing/wrong format version, swapped parents, ...), "
+                "read through bug.Read on the mock and the go-git backend; non-trivial = more than one commit; distinct = distinct "
+                "decoded commit lists",
+        "trusted_base": [KERNEL, TIE,
+                         "model: GitBugModel.Dag (bfs, pass1, pass2, sortPacks, read) for entity/dag/entity.go read",
+                         "the harness decodes commits independently through repository.RepoData (tree entry names, ops blob)",
+                         "sort.Slice is assumed to sort under a strict weak order; the model uses insertion sort with the same comparator"],
+        "assumptions": ["KeyOK: equal (edit time, pack id) implies equal operations", "no uint64 overflow of Lamport times"],
+        "gen_facts": ["Gen.Dag.readComparisons = the comparison list the model transcribes"],
+    },
 }
